@@ -1423,6 +1423,19 @@ def run(ctx: Ctx):
 
     # ---------------------------------------------------------------- fixed and open findings
     ctx.replay_fixed_demos()
+    # the harness' own witness of every FIXED finding: it must conform now (a fixed entry suppresses nothing)
+    for f in ctx.fixed_findings():
+        w = f.get("witness") or {}
+        if "method" not in w:
+            continue
+        w = subst_mod({k: v for k, v in w.items() if k != "demo"})
+        r = run_case(w)
+        ctx.count()
+        dev = deviation(w, r)
+        if dev is not None and not any(matches(g, w, r) for g in ctx.open_findings()):
+            ctx.violation("repaired defect %s (%s) is back: %s" % (f["id"], f.get("commit"), dev),
+                          {"kind": "oracle", "origin": "fixed-finding", "case": w, "outcome": r["outcome"], "message": r.get("msg"),
+                           "frames": (r.get("frames") or [])[-8:]})
     for f in ctx.open_findings():
         w = subst_mod(f["witness"])
         r = run_case(w)
